@@ -699,6 +699,13 @@ func main() {
 		fragStatus[k] = v
 	}
 	// end trans4
+	// trans8: list/slist.go, list/dlist.go at the pointer level (frag_list.go) -> Gen/Lists.lean
+	listsLean, listsStatus := translateLists()
+	writeIfChanged(filepath.Join(outDir, "Lists.lean"), listsLean)
+	for k, v := range listsStatus {
+		fragStatus[k] = v
+	}
+	// end trans8
 	// trans6: trie/trie.go -> Gen/Trie.lean (frag_trie.go)
 	trieLean, trieStatus := translateTrie()
 	writeIfChanged(filepath.Join(outDir, "Trie.lean"), trieLean)
